@@ -210,6 +210,7 @@ type ctlConn struct {
 	raw     *bufio.Reader
 	events  []string
 	dead    bool
+	frameSize int
 }
 
 func dial(port int) (*ctlConn, error) {
@@ -264,8 +265,22 @@ func (cc *ctlConn) send(b []byte) error {
 		_, err := cc.c.Write(b)
 		return err
 	}
-	_, err := cc.c.Write(refSealFrames(cc.wkey, cc.wctr, b))
-	cc.wctr += uint64((len(b) + 1023) / 1024)
+	// a controller may cut a message into frames of any size up to 1024 bytes
+	fsz := cc.frameSize
+	if fsz <= 0 || fsz > 1024 {
+		fsz = 1024
+	}
+	var out []byte
+	for len(b) > 0 {
+		n := len(b)
+		if n > fsz {
+			n = fsz
+		}
+		out = append(out, refSealFrames(cc.wkey, cc.wctr, b[:n])...)
+		cc.wctr++
+		b = b[n:]
+	}
+	_, err := cc.c.Write(out)
 	return err
 }
 
